@@ -27,6 +27,8 @@ def main(argv=None):
     ap.add_argument("--replay")
     ap.add_argument("--list", action="store_true")
     ap.add_argument("--unit", action="append", help="restrict to these units (debugging; evidence is not written)")
+    ap.add_argument("--verbose", "-v", action="store_true")
+    ap.add_argument("--no-evidence", action="store_true")
     ap.add_argument("--jobs", type=int, default=int(os.environ.get("VERIF_JOBS", "16")))
     a = ap.parse_args(argv)
     sys.path.insert(0, core.VERIF)
@@ -65,6 +67,10 @@ def main(argv=None):
                     r = core.Result(core.Unit(m.NAME, m.TOOL, m.PROPS, []), None)
                     r.undecided = str(e)
                     results.append(r)
+        if a.verbose:
+            for r in results:
+                print("==== %s cfg=%s verified=%d errors=%d undecided=%s" % (r.unit.name, r.cfg, r.verified_count, r.error_count, r.undecided))
+                print(r.raw_tail)
         if a.update_ledger:
             os.makedirs(os.path.join(core.VERIF, "ledger"), exist_ok=True)
             for r in results:
@@ -79,7 +85,7 @@ def main(argv=None):
             mres = mutants.run_catalogue(prop, mods, scratch, a.jobs)
         else:
             mres = None
-        return verdict(prop, tier, seed, mods, results, time.time() - t0, write=not a.unit, mres=mres, scratch=scratch)
+        return verdict(prop, tier, seed, mods, results, time.time() - t0, write=not (a.unit or a.no_evidence or os.environ.get('VERIF_NO_EVIDENCE')), mres=mres, scratch=scratch)
     finally:
         if a.keep:
             print("scratch kept:", scratch)
@@ -94,8 +100,10 @@ def verdict(prop, tier, seed, mods, results, wall, write=True, mres=None, scratc
     obligations = {}
     failed = {}
     for r in results:
+        if r.undecided:
+            continue
         for o in r.obligations:
-            if prop in o["props"] or (o["props"] == ["C16"] and prop == "C16"):
+            if prop in o["props"]:
                 key = o["id"] + (("@" + r.cfg) if r.cfg else "")
                 obligations[key] = dict(o, cfg=r.cfg)
         for f in r.failed:
@@ -106,7 +114,7 @@ def verdict(prop, tier, seed, mods, results, wall, write=True, mres=None, scratc
                     obligations[key] = {"id": f["id"], "props": f["props"], "clause": f["clause"], "backend": "verus/z3" if r.unit.tool == "verus" else "kani/cbmc", "unit": r.unit.name, "cfg": r.cfg, "side_condition": True}
     # implicit side conditions: each verus query (function / loop) that verified carries its
     # overflow / index / unwrap / unreachable obligations; counted from the verifier's own report.
-    implicit = sum(r.verified_count for r in results if r.unit.tool == "verus" and not r.undecided)
+    implicit = sum(r.verified_count for r in results if r.unit.tool == "verus" and not r.undecided and prop in r.unit.implicit)
     violations = []
     known_seen = []
     for key, f in sorted(failed.items()):
